@@ -42,13 +42,13 @@ BaselineOf(X, R, F) ==
   LET a1 == FoldLeft(LAMBDA acc, ln : BaseStep(X, R, acc, ln), [B |-> EmptyB(X), chq |-> <<>>], F)
   IN FoldLeft(LAMBDA acc, mv : BaseMember(X, acc, mv), a1, a1.chq).B
 
-MainLoad(X, R, st, F) ==
-  LET l == Load(X, R, F, TRUE, st.U, st.P)
-  IN [st EXCEPT !.U = l.U, !.P = l.P, !.B = BaselineOf(X, R, F), !.missing = l.missing]
+MainLoad(X, ord, R, st, F) ==   \* defaults policy: sdkconfig (the default)
+  LET l == LoadPFrom(X, ord, R, F, "sdkconfig", st.I)
+  IN [st EXCEPT !.U = l.U, !.P = l.P, !.I = l.I, !.B = BaselineOf(X, R, F), !.missing = l.missing]
 
-Start(X, R, file) ==
+Start(X, ord, R, file) ==
   LET st0 == [U |-> NoUser(X).U, P |-> NoUser(X).P, I |-> NoInj(X), B |-> EmptyB(X), missing |-> <<>>, file |-> file]
-  IN IF file[1] = "absent" THEN st0 ELSE MainLoad(X, R, st0, file[2])
+  IN IF file[1] = "absent" THEN st0 ELSE MainLoad(X, ord, R, st0, file[2])
 
 \* ---- needs_save()
 NeedsSave(X, ord, st) ==
@@ -108,7 +108,7 @@ LoadAlt(X, R, st, F) ==   \* try_load: merge, not the main file
 Save(X, ord, R, st) ==    \* write_config + reload_sdkconfig_file
   LET A == EvalI(X, ord, st.U, st.P, st.I)
       F == Render(X, A, st.U, st.P)
-  IN MainLoad(X, R, [st EXCEPT !.file = <<"lines", F>>], F)
+  IN MainLoad(X, ord, R, [st EXCEPT !.file = <<"lines", F>>], F)
 
 ApplyMenuAct(X, ord, R, Files, Menus, st, act) ==
   CASE act.a = "set"       -> UiSet(X, ord, st, act.n, act.v)
